@@ -40,7 +40,7 @@ type TaskRunner struct {
 	cancelFunc  context.CancelFunc
 	cancelMutex sync.RWMutex
 	canceling   bool
-	doneCh      chan struct{}
+	inFlight    sync.WaitGroup
 
 	compiler *TaskCompiler
 
@@ -61,7 +61,6 @@ func NewTaskRunner(opts ...Opts) (*TaskRunner, error) {
 		Stderr:       os.Stderr,
 		variables:    variables.NewVariables(),
 		env:          variables.NewVariables(),
-		doneCh:       make(chan struct{}, 1),
 	}
 
 	r.ctx, r.cancelFunc = context.WithCancel(context.Background())
@@ -92,17 +91,14 @@ func (r *TaskRunner) SetVariables(vars variables.Container) *TaskRunner {
 // Run run provided task.
 // TaskRunner first compiles task into linked list of Jobs, then passes those jobs to Executor
 func (r *TaskRunner) Run(t *task.Task) error {
-	defer func() {
-		r.cancelMutex.RLock()
-		if r.canceling {
-			close(r.doneCh)
-		}
-		r.cancelMutex.RUnlock()
-	}()
-
+	r.cancelMutex.RLock()
 	if err := r.ctx.Err(); err != nil {
+		r.cancelMutex.RUnlock()
 		return err
 	}
+	r.inFlight.Add(1)
+	r.cancelMutex.RUnlock()
+	defer r.inFlight.Done()
 
 	execContext, err := r.contextForTask(t)
 	if err != nil {
@@ -188,7 +184,7 @@ func (r *TaskRunner) Cancel() {
 		r.cancelFunc()
 	}
 	r.cancelMutex.Unlock()
-	<-r.doneCh
+	r.inFlight.Wait()
 }
 
 // Finish makes cleanup tasks over contexts
